@@ -338,7 +338,9 @@ def check_C03(ctx):
                         if p[:k] in exp and not close(num(a), exp[p[:k]], Fraction(1, 100)):
                             ctx.violation("C03:joined-row-hides-an-amount:" + m, "mode %s prints %s on the row %r, the logged foods at or below %r contribute %s" % (m, num(a), b"/".join(p), b"/".join(p[:k]), exp[p[:k]]), rep)
                             break
-        leaves = {m: [(p, a) for p, a, leaf in d[0] if leaf] for m, d in dec.items()}
+        # (the sign of a zero is not an amount: a chain joined over totals 0 and -0 - equal in Go - shows `0.00` where the plain tree shows `-0.00`;
+        #  Props/C03_print.v, collapsed_leaves_without_hypothesis_refuted_b64)
+        leaves = {m: [(p, b"0.00" if a.strip() == b"-0.00" else a) for p, a, leaf in d[0] if leaf] for m, d in dec.items()}
         allp = {m: {p[:k] for p, _, _ in d[0] for k in range(1, len(p) + 1)} for m, d in dec.items()}
         if "plain" in dec:
             names = [p for p, _, leaf in dec["plain"][0]]
